@@ -96,7 +96,7 @@ func vpC03GenStream(t *rapid.T, wbuf int) *vpC03StreamSpec {
 	s.Reader = rapid.SampledFrom([]int{vpC03RdPlain, vpC03RdPlain, vpC03RdPlain, vpC03RdBytesReader, vpC03RdBytesBuffer, vpC03RdCloser, vpC03RdLimited,
 		vpC03RdWriterToOn, vpC03RdWriterToOff, vpC03RdFile, vpC03RdSendFile}).Draw(t, "reader")
 	s.Content = vpC03GenContent(t, "stream", true)
-	if s.Policy == "long" && vpKnownOpen(vpC03KeyOverlong) {
+	if s.Policy == "long" && vpC03OverlongOpen(s.Reader) {
 		vpExclude(vpC03KeyOverlong)
 		s.Policy = "exact"
 	}
@@ -285,7 +285,7 @@ func vpC03FillOp(t *rapid.T, m *vpC03Model, g vpC03GenEnv, kind string) vpC03Op 
 			cur = len(m.Stream.Content)
 		}
 		choice := rapid.SampledFrom([]string{"same", "same", "smaller", "larger", "zero", "junk"}).Draw(t, "clChoice")
-		if m.IsStream && (choice == "smaller" || (choice == "zero" && cur > 0)) && vpKnownOpen(vpC03KeyOverlong) {
+		if m.IsStream && (choice == "smaller" || (choice == "zero" && cur > 0)) && vpC03OverlongOpen(m.Stream.Reader) {
 			vpExclude(vpC03KeyOverlong)
 			choice = "same"
 		}
@@ -301,7 +301,7 @@ func vpC03FillOp(t *rapid.T, m *vpC03Model, g vpC03GenEnv, kind string) vpC03Op 
 		case "zero":
 			n = 0
 		}
-		if m.IsStream && n < cur && vpKnownOpen(vpC03KeyOverlong) {
+		if m.IsStream && n < cur && vpC03OverlongOpen(m.Stream.Reader) {
 			n = cur
 		}
 		if o.Kind == "handcl" {
@@ -493,13 +493,46 @@ func vpC03Get(ops ...vpC03Op) vpC03Req {
 
 var vpC03ProbeOnce sync.Once
 
+// which reader groups of the over-long-stream finding still reproduce (set by the probe)
+var vpC03OverlongFileOpen, vpC03OverlongOtherOpen bool
+
+func vpC03OverlongOpen(reader int) bool {
+	if !vpKnownOpen(vpC03KeyOverlong) {
+		return false
+	}
+	if reader == vpC03RdFile || reader == vpC03RdSendFile {
+		return vpC03OverlongFileOpen
+	}
+	return vpC03OverlongOtherOpen
+}
+
 func vpC03Probes() {
 	vpC03ProbeOnce.Do(func() {
 		tail := vpC03Get(vpC03Op{Kind: "setbody", B: []byte("tail")})
 		// (1) a stream yielding more than its declared size
-		long := &vpC03StreamSpec{Content: vpC03Fill(0, 10+2*4096), Declared: 10, Policy: "long", Reader: vpC03RdPlain}
-		f := vpC03ProbeRun([]vpC03Req{vpC03Get(vpC03Op{Kind: "stream", Stream: long}), tail})
-		vpProbe(vpC03KeyOverlong, f != "", f)
+		//     (probed per reader group, so that a repair covering only some reader types re-admits exactly those)
+		var details []string
+		for _, rk := range []int{vpC03RdPlain, vpC03RdBytesReader, vpC03RdLimited, vpC03RdFile, vpC03RdSendFile} {
+			long := &vpC03StreamSpec{Content: vpC03Fill(0, 10+2*4096), Declared: 10, Policy: "long", Reader: rk}
+			ops := []vpC03Op{{Kind: "stream", Stream: long}}
+			if rk == vpC03RdLimited {
+				long.LimitN, long.Under = len(long.Content), long.Content
+			}
+			if rk == vpC03RdSendFile { // SendFile sizes the stream itself; the smaller size is then set by hand
+				long.Declared, long.Policy = len(long.Content), "exact"
+				ops = append(ops, vpC03Op{Kind: "handcl", V: "10"})
+			}
+			if f := vpC03ProbeRun([]vpC03Req{vpC03Get(ops...), tail}); f != "" {
+				details = append(details, vpC03ReaderNames[rk]+": "+f)
+				if rk == vpC03RdFile || rk == vpC03RdSendFile {
+					vpC03OverlongFileOpen = true
+				} else {
+					vpC03OverlongOtherOpen = true
+				}
+			}
+		}
+		vpProbe(vpC03KeyOverlong, len(details) > 0, strings.Join(details, " || "))
+		var f string
 		// (2) unknown-size stream on a response without body
 		sw := &vpC03StreamSpec{Policy: "writer", Declared: -1, Parts: [][]byte{[]byte("hello")}, Flush: []bool{true}, Content: []byte("hello")}
 		head := vpC03Req{Method: "HEAD", Proto: "HTTP/1.1", Prog: vpC03Prog{Ops: []vpC03Op{{Kind: "sw", Stream: sw}}}}
